@@ -461,4 +461,8 @@ func init() {
 		delete(externals, n)
 	}
 	concreteOnly["strconv.FormatFloat"] = true
+	// bit-level definitions: with a symbolic argument the library's own Go source is interpreted
+	concreteOnly["math.Ldexp"] = true
+	concreteOnly["math.Frexp"] = true
+	concreteOnly["math.Copysign"] = true
 }
